@@ -43,11 +43,11 @@ def lean_text(s: str) -> str:
 # straight-line code of format_int_roman / format_int_alpha  ->  Gen/LabelCode.lean
 #
 # Shape accepted (anything else is Untranslatable):
-#     assert <test>; result: List[str] = []; [index = 0]
-#     while <cond>: <body>            body = assignments, divmod, result.insert/append, if/elif/else
-#     [result.reverse()]; return "".join(result)
-# Emitted per function: `_pre` (assert), `_cond` (while test), `_body` (ONE pass through the loop body,
-# state in -> state out, IndexError as an error), `_post` (what is returned from the final `result`).
+#     assert <test>; <prologue>; while <cond>: <body>; <epilogue>; return "".join(result)
+#     statements = assignments, divmod, result: List[str] = [], result.insert/append/reverse, if/elif/else
+# Emitted per function: `_pre` (assert), `_init` (prologue: the state the loop starts in), `_cond` (while
+# test), `_body` (ONE pass through the loop body, state in -> state out, IndexError as an error), `_post`
+# (epilogue and the joined result).
 # Python rebinding = Lean `let` shadowing; statements after an `if` are copied into both branches.
 
 TABLES = {"ROMAN_ONES": "text", "ROMAN_FIVES": "text"}      # list of str: element kind
@@ -61,8 +61,9 @@ def is_ascii_lowercase(e: ast.expr) -> bool:
 
 class Body:
     def __init__(self, state):
-        self.state = state                   # names of the loop state, in output order
-        self.kinds = {"value": "int", "index": "int", "remainder": "int", "result": "list"}
+        self.state = state                   # names of the state handed on, in output order
+        self.final = None                    # text of the last expression (default: the state tuple)
+        self.kinds = {"value": "int"}
         self.tmp = 0
 
     def expr(self, e: ast.expr, binds):
@@ -125,7 +126,7 @@ class Body:
 
     def block(self, stmts, ind):
         if not stmts:
-            return [f"{ind}Except.ok ({', '.join(self.state)})"]
+            return [f"{ind}Except.ok ({self.final or ', '.join(self.state)})"]
         s, rest = stmts[0], stmts[1:]
         binds = []
         if isinstance(s, ast.If):
@@ -158,6 +159,10 @@ class Body:
             pre, line, close = self.wrap(binds, f"{ind}let {name} := {v};", ind)
             self.kinds[name] = k
             return pre + [line] + self.block(rest, ind) + ([ind + close] if close else [])
+        if isinstance(s, ast.AnnAssign) and isinstance(s.target, ast.Name) and s.target.id == "result" \
+                and isinstance(s.value, ast.List) and not s.value.elts:
+            self.kinds["result"] = "list"
+            return [f"{ind}let result : List CodePoints := [];"] + self.block(rest, ind)
         if isinstance(s, ast.AugAssign) and isinstance(s.target, ast.Name) and type(s.op) in (ast.Add, ast.Sub):
             v, k = self.expr(s.value, binds)
             name = s.target.id
@@ -175,6 +180,8 @@ class Body:
                 if kk != "int" or kx != "text":
                     raise P.Untranslatable("result.insert arguments")
                 line = f"{ind}let result := pyInsert result ({k}) {x};"
+            elif m == "reverse" and not args:
+                line = f"{ind}let result := result.reverse;"
             elif m == "append" and len(args) == 1:
                 x, kx = self.expr(args[0], binds)
                 if kx != "text":
@@ -193,53 +200,48 @@ def is_join_result(e) -> bool:
             and isinstance(e.args[0], ast.Name) and e.args[0].id == "result")
 
 
-def numeral_function(mod, name: str, state):
+def numeral_function(mod, name: str, state, extras):
+    """state = the variables the loop body works on; extras = set before the loop, used after it."""
     fn = P.find_function(mod, name)
     body = [s for s in fn.body if not (isinstance(s, ast.Expr) and isinstance(s.value, ast.Constant)
                                        and isinstance(s.value.value, str))]
     if [a.arg for a in fn.args.args] != ["value"]:
         raise P.Untranslatable(f"{name}: parameters")
-    i = 0
-    if not isinstance(body[i], ast.Assert):
+    if not isinstance(body[0], ast.Assert):
         raise P.Untranslatable(f"{name}: no leading assert")
-    b = Body(state)
-    pre, k = b.expr(body[i].test, [])
-    i += 1
-    s = body[i]
-    if not (isinstance(s, ast.AnnAssign) and isinstance(s.target, ast.Name) and s.target.id == "result"
-            and isinstance(s.value, ast.List) and not s.value.elts):
-        raise P.Untranslatable(f"{name}: result is not initialised with []")
-    i += 1
-    if "index" in state:
-        s = body[i]
-        if not (isinstance(s, ast.Assign) and isinstance(s.targets[0], ast.Name) and s.targets[0].id == "index"
-                and isinstance(s.value, ast.Constant) and s.value.value == 0 and not isinstance(s.value.value, bool)):
-            raise P.Untranslatable(f"{name}: index is not initialised with 0")
-        i += 1
-    w = body[i]
-    if not isinstance(w, ast.While) or w.orelse:
-        raise P.Untranslatable(f"{name}: no while loop")
-    cond, kc = b.expr(w.test, [])
-    lines = b.block(list(w.body), "  ")
-    i += 1
-    post = "result"
-    if isinstance(body[i], ast.Expr) and isinstance(body[i].value, ast.Call) \
-            and isinstance(body[i].value.func, ast.Attribute) and body[i].value.func.attr == "reverse" \
-            and isinstance(body[i].value.func.value, ast.Name) and body[i].value.func.value.id == "result" \
-            and not body[i].value.args:
-        post = "result.reverse"
-        i += 1
-    if not (i == len(body) - 1 and isinstance(body[i], ast.Return) and is_join_result(body[i].value)):
+    loops = [k for k, s in enumerate(body) if isinstance(s, ast.While)]
+    if len(loops) != 1 or body[loops[0]].orelse:
+        raise P.Untranslatable(f"{name}: not exactly one while loop")
+    w = loops[0]
+    if not (isinstance(body[-1], ast.Return) and is_join_result(body[-1].value)):
         raise P.Untranslatable(f"{name}: tail is not `return \"\".join(result)`")
-    types = {"value": "Int", "index": "Int", "result": "List CodePoints"}
-    params = " ".join(f"({v} : {types[v]})" for v in state)
-    ret = " × ".join(types[v] for v in state)
+    types = {"value": "Int", "index": "Int", "thousands": "Int", "result": "List CodePoints"}
+    b = Body(extras + state)
+    pre, k = b.expr(body[0].test, [])
+    init = b.block(body[1:w], "  ")                       # prologue: the state the loop starts in
+    missing = [v for v in extras + state if v not in b.kinds]
+    if missing:
+        raise P.Untranslatable(f"{name}: {missing} not set before the loop")
+    b.kinds["remainder"] = "int"
+    b.state = state
+    cond, kc = b.expr(body[w].test, [])
+    lines = b.block(list(body[w].body), "  ")
+    b.state, b.final = ["result"], "result.flatten"
+    post = b.block(body[w + 1:-1], "  ")                  # epilogue, then "".join(result)
+
+    def sig(vs):
+        return " ".join(f"({v} : {types[v]})" for v in vs), " × ".join(types[v] for v in vs)
+    p_init, r_init = sig(extras + state)
+    p_body, r_body = sig(state)
+    p_post, _ = sig(extras + ["result"])
     out = [f"/-- `assert` at the head of `{name}` -/\ndef {name}_pre (value : Int) : Bool := {pre}\n\n",
+           f"/-- the statements of `{name}` in front of the loop: the state the loop starts in -/\n"
+           f"def {name}_init (value : Int) : Except PyErr ({r_init}) :=\n" + "\n".join(init) + "\n\n",
            f"/-- the `while` test of `{name}` -/\ndef {name}_cond (value : Int) : Bool := {cond}\n\n",
            f"/-- ONE pass through the body of the `while` loop of `{name}` -/\n"
-           f"def {name}_body {params} : Except PyErr ({ret}) :=\n" + "\n".join(lines) + "\n\n",
-           f"/-- what `{name}` returns from the final `result` -/\n"
-           f"def {name}_post (result : List CodePoints) : CodePoints := ({post}).flatten\n\n"]
+           f"def {name}_body {p_body} : Except PyErr ({r_body}) :=\n" + "\n".join(lines) + "\n\n",
+           f"/-- the statements of `{name}` after the loop and the returned `\"\".join(result)` -/\n"
+           f"def {name}_post {p_post} : Except PyErr CodePoints :=\n" + "\n".join(post) + "\n\n"]
     return "".join(out)
 
 
@@ -251,8 +253,8 @@ def generate_code(lean_dir: str, mod):
     out.append("open PdfVerif.LabelsPy PdfVerif.Gen.LabelTables\n\n")
     out.append("/-- `string.ascii_lowercase` (standard library constant, read at generation time) -/\n"
                "def ascii_lowercase : CodePoints := " + lean_text(string.ascii_lowercase) + "\n\n")
-    out.append(numeral_function(mod, "format_int_roman", ["value", "index", "result"]))
-    out.append(numeral_function(mod, "format_int_alpha", ["value", "result"]))
+    out.append(numeral_function(mod, "format_int_roman", ["value", "index", "result"], ["thousands"]))
+    out.append(numeral_function(mod, "format_int_alpha", ["value", "result"], []))
     out.append("end PdfVerif.Gen.LabelCode\n")
     path = os.path.join(lean_dir, "PdfVerif", "Gen", "LabelCode.lean")
     P.write_if_changed(path, "".join(out))
